@@ -322,11 +322,21 @@ def main():
     chk.cov['evaluations'] = max(chk.cov['evaluations'], paths)
     chk.cov['distinct_nontrivial'] = paths
     chk.cov['models'] = models
+    from . import extras7
+    for fn_ in ('same_named_classes_of_imported_grammar',):
+        for pr in getattr(extras7, fn_)()[:2]:
+            chk.violation(pr, {'extras7': fn_})
+        chk.cov['traces_validated_against_impl'] += 1
+    chk.cov.setdefault('bounds', {})['concrete_supplements_round7'] = ['same_named_classes_of_imported_grammar']
     return chk.finish('per model (solver-enumerated witness): one path per observable valuation of the selector / '
                       'should_follow predicates and children_first')
 
 
 def replay(data):
+    if isinstance(data, dict) and data.get('extras7'):
+        from . import extras7
+        pr = getattr(extras7, data['extras7'])()
+        return bool(pr), pr[:2]
     g = next(x for x in grammars() if x['name'] == data['grammar'])
     mm = build(g)
     kind, model = real_load(mm, data['text'])
